@@ -3866,7 +3866,14 @@ pub fn initialize(env: &mut Env) {
     });
     env.insert_builtin(OneArgBuiltin {
         name: "cycle".to_string(),
-        body: |a| Ok(Obj::Seq(Seq::Stream(Rc::new(Cycle(to_rc_vec_obj(a)?, 0))))),
+        body: |a| {
+            let v = to_rc_vec_obj(a)?;
+            if v.is_empty() {
+                Err(NErr::value_error("cycle: empty sequence".to_string()))
+            } else {
+                Ok(Obj::Seq(Seq::Stream(Rc::new(Cycle(v, 0)))))
+            }
+        },
     });
     env.insert_builtin(OneArgBuiltin {
         name: "iota".to_string(),
